@@ -995,6 +995,8 @@ def c01(tier):
     sw += [i for i in c19(tier) if i.name == 'csdo_step' or '_b5_' in i.name or '_b3_' in i.name]
     sw += [i for i in c16(tier) if i.name.startswith('sync_')]
     sw += [i for i in c08(tier) if '_isr1_' in i.name][:(12 if tier == 'quick' else 60)]
+    # timer histories long enough for a corrupted list to be walked / a freed action to be called
+    sw += [tmr_inst('tmr_bmc_p2_%s' % ''.join('CDTP'[o] for o in ops), 2, len(ops), 0, ops, tmax=2, weight=4) for ops in ((0, 0, 2, 3, 2, 3), (0, 0, 1, 0, 2, 3), (0, 2, 0, 3, 2, 3))]
     return out + safety(sw) + cfg_insts(tier)
 
 
